@@ -4,14 +4,17 @@
    validator without positions yields a position worth exactly the deposit; (3) the
    error envelopes of the 18-digit fixed-point operations every value computation is
    made of (half a unit in the last place for Mul, one and a half for Quo, exactness on
-   integers, monotonicity, "a factor <= 1 never increases").  The per-operation bounds
+   integers, monotonicity, "a factor <= 1 never increases"); (4) a user message writes no
+   delegation record but the actor's own (C04_other_delegation_records_untouched, every
+   reachable state, every outcome).  The per-operation bounds
    for delegate / undelegate / redelegate on populated validators are NOT proved
    (partial); they are evaluated by check_C04 on implementation traces with the
    tolerance stated there. *)
 From Coq Require Import ZArith List Bool.
 From Alliance Require Import Num NumFacts KMap Types Monad Model Step Spec Hoare WitnessLib.
-From Alliance.Witness Require Import F_C04_shortcut_dilution F_C04_zero_validator_shares.
+From Alliance.Witness Require Import F_C04_shortcut_dilution F_C04_zero_validator_shares F_C04_rounder_sweep.
 From Alliance.Proofs Require Import Value.
+From Alliance.Proofs Require Import Targeted.
 Import ListNotations.
 Open Scope Z_scope.
 
@@ -58,6 +61,13 @@ Proof. vm_compute. reflexivity. Qed.
 Print Assumptions C04_refuted_zero_validator_shares.
 
 (* the model's value function is the reported balance the specification reads *)
+(* F-C04-3: the 0.01-share tolerance of ValidateDelegatedAmount: with shares worth more than 100 tokens
+   each, undelegating 234 of a position worth 300 removes the whole position; the remaining 66 go to
+   the other holder of the validator.  History executed on the real implementation. *)
+Example C04_refuted_rounder_sweep : witness_fails 4 33 ops_F_C04_rounder_sweep = true.
+Proof. vm_compute. reflexivity. Qed.
+Print Assumptions C04_refuted_rounder_sweep.
+
 Theorem C04_value_is_reported_balance : forall s k, value_of s k = reported_balance s k.
 Proof. intros s k; destruct k as [|del [|v [|dn [|]]]]; reflexivity. Qed.
 Print Assumptions C04_value_is_reported_balance.
@@ -71,3 +81,14 @@ Example C04_nonvacuous :
   map (fun x => (snd (fst x), value_of (snd x) [100; 10; 1], value_of (snd x) [101; 10; 1])) (skipn 6 (run_trace init_state h))
   = [(0, 500, 0); (0, 500, 300); (0, 300, 300)].
 Proof. vm_compute. reflexivity. Qed.
+
+(* targeted: a user message writes no delegation record but the actor's own — every reachable state,
+   every outcome: the records (shares, reward history, claim height) of every other (delegator,
+   validator) pair are exactly what they were.  What can move for the others is only the price of
+   their shares (the validator's and the asset's totals): the value clauses above and C03. *)
+Theorem C04_other_delegation_records_untouched : forall h o del' v' dn', let s := run init_state h in
+  match o with ODelegate _ _ _ _ | OUndelegate _ _ _ _ | OClaim _ _ _ | ORedelegate _ _ _ _ _ => True | _ => False end ->
+  ~ In (del', v') (actor_pairs o) ->
+  kget (delegations (fst (step s o))) [del'; v'; dn'] = kget (delegations s) [del'; v'; dn'].
+Proof. exact other_delegation_records_untouched. Qed.
+Print Assumptions C04_other_delegation_records_untouched.
